@@ -132,7 +132,7 @@ def cases(draw):
     funcs = []
     for i in range(nfun):
         body = draw(st.one_of(forests(kinds), deep_forest(kinds)))
-        cont = draw(st.sampled_from(["top", "top", "method", "arrow", "funcexpr"]))
+        cont = draw(st.sampled_from(["top", "top", "method", "arrow", "funcexpr", "curried", "callback", "defparam"]))
         funcs.append({"name": f"fn_{i}", "container": cont, "body": body})
     # methods are grouped so the class/impl block is contiguous
     funcs.sort(key=lambda f: f["container"] != "method")
@@ -155,6 +155,8 @@ def observe(funcs, lang, limits, via, layout="lines"):
     fname = "mod" + sk.EXT[lang]
     out = {}
     anomalies = []
+    known_names = {f["name"] for f in funcs}
+    by_line = {line: name for name, line in headers.items()}
     with Project({fname: text}) as p:
         for L in limits:
             if via == "config":
@@ -173,6 +175,12 @@ def observe(funcs, lang, limits, via, layout="lines"):
                     anomalies.append({"limit": L, "unexpected_violation": v})
                     continue
                 name = m.group(1)
+                if name not in known_names and v["line"] in by_line:
+                    # a function without a name of its own (curried / callback / parameter default) is identified by its line;
+                    # the enclosing expression-bodied arrow function starts on the same line and has the same depth
+                    name = by_line[v["line"]]
+                    if name in seen and seen[name] == (int(m.group(2)), v["line"]):
+                        continue
                 if name in seen:
                     anomalies.append({"limit": L, "reported_twice": name})
                 seen[name] = (int(m.group(2)), v["line"])
